@@ -511,7 +511,8 @@ IDENTITIES = {
     "yrs::block::Item::last_id": ("ret", "ID::new(self.id.client, ((Item::len(self) + self.id.clock) - 1))"),
     "yrs::block::BlockRange::clock_end": ("ret", "(self.clock + self.len)"),
     "yrs::block::BlockRange::id": ("ret", "ID::new(self.client, self.clock)"),
-    "yrs::block::BlockRange::slice": ("store", {"clock": "(offset + self.clock)", "len": "(self.len - offset)"}),
+    "yrs::block::BlockRange::slice": ("store", {"clock": "(offset + self.clock)", "len": "(self.len - offset)"},
+                                      "BlockRange::new(ID::new(self.client, (offset + self.clock)), (self.len - offset))"),
     "yrs::block::BlockRange::merge": ("store", {"len": "(other.len + self.len)"}),
     "yrs::state_vector::StateVector::get": ("ret", "0 | HashMap::get(self.0, client_id)"),
     "yrs::block_store::ClientBlockList::clock": ("ret", "0 | Block::next_clock(BlockRef::as_ref(ClientBlockList::last(self)))"),
@@ -530,7 +531,9 @@ def identity_table(R, ctx, rid):
                 "slice(offset) moves the clock forward and shortens the length by the same offset, … A refactoring that keeps the "
                 "value (named temporaries, reordered commutative operands) renders the same; a neighbour's formula does not")
     n = 0
-    for path, (kind, want) in sorted(IDENTITIES.items()):
+    for path, spec in sorted(IDENTITIES.items()):
+        kind, want = spec[0], spec[1]
+        alt = spec[2] if len(spec) > 2 else None
         fn = Y.fn(path)
         v = FnView(fn)
         n += 1
@@ -544,6 +547,12 @@ def identity_table(R, ctx, rid):
                 if isinstance(d, dict) and d.get("p") and isinstance(d["p"][-1], str):
                     got[d["p"][-1].rsplit(".", 1)[-1]] = _canon(v.terms.rvalue(st["rv"], 12))
             ok = all(got.get(f) == e for f, e in want.items())
+            if not ok and alt is not None:
+                # the same value built by the constructor instead of by field stores
+                ret = _canon(v.terms.local(0, 14))
+                if ret == alt:
+                    R.ob(rid, fn, "stores", True, "answers %s" % ret)
+                    continue
             R.ob(rid, fn, "stores", ok, "stores %s" % {f: got.get(f) for f in want} if ok else "stores %s — expected %s" % ({f: got.get(f) for f in want}, want))
     R.floor(rid, "accessors in the identity table", n, 12)
 
